@@ -215,7 +215,13 @@ impl<F: FixedChannelRegion> RegionHandler for FixedChannelPlan<F> {
                     (dr, channel)
                 // Alternatively, we will ask JoinChannel logic to determine a channel from the
                 // subband that  the join succeeded on.
-                } else if let Some(channel) = self.join_channels.first_data_channel(rng) {
+                } else if let Some(channel) = self.join_channels.first_data_channel(rng)
+                    // the sub-band that served the join is only a preference: the channel must be
+                    // enabled (CFList / LinkADRReq) and of the bandwidth of the current data rate
+                    && self.channel_mask.is_enabled(channel.into()).unwrap()
+                    && F::datarates()[datarate as usize].as_ref().map(|d| d.bandwidth)
+                        == Some(Bandwidth::_125KHz)
+                {
                     (datarate, channel)
                 } else {
                     // For the data frame, the datarate impacts which channel sets we can choose
